@@ -49,6 +49,9 @@ class Module:
         stringEnd)
 
     rule.ignore(cppStyleComment)
+    # Do not expand tabs: default values are copied verbatim and
+    # a string literal may contain one.
+    rule.parseWithTabs()
 
     @staticmethod
     def parseString(s: str) -> ParseResults:
